@@ -1203,3 +1203,79 @@ Proof.
   - apply wfm_nil.
   - vm_compute. reflexivity.
 Qed.
+
+(* ================================================================== protocol parameter variants *)
+(* what everything but the amount contributes to the map form of an output *)
+Definition Kout (o : txout) : N :=
+  (3 + lenN (enc (CB (o_addr o)))
+   + match o_datum o with
+     | None => 0
+     | Some (DHash h) => 1 + lenN (enc (CA [CU 0; CB h]))
+     | Some (DInline d) => 1 + lenN (enc (CA [CU 1; CTag 24 (CB d)]))
+     end
+   + match o_script o with None => 0 | Some s => 1 + lenN (enc (CTag 24 (CB s))) end)%N.
+
+Lemma out_size_split o : out_size o = (Kout o + lenN (value_cbor (o_val o)))%N.
+Proof.
+  destruct o as [a v d s]. unfold out_size, out_cbor_map, out_prim_map, Kout, value_cbor.
+  cbn [o_addr o_val o_datum o_script].
+  destruct d as [[h|dd]|]; destruct s as [sb|]; cbn [app];
+    change (enc (CM ?l)) with (head 5 (lenN l) ++ concat (map (fun kv => enc (fst kv) ++ enc (snd kv)) l));
+    cbn [map concat fst snd]; rewrite !lenN_app, !head_length; cbn [lenN];
+    repeat match goal with |- context [enc (CU ?n)] => change (enc (CU n)) with (head 0 n) end;
+    rewrite ?head_length.
+  all: repeat match goal with |- context [width ?n] => let w := eval vm_compute in (width n) in change (width n) with w end; lia.
+Qed.
+
+(* the answer of the utility for an output without ADA, put into that output, satisfies the ledger rule (as long as
+   the answer needs at most 5 bytes, like the 1 ADA that stood in for it) *)
+Theorem min_lovelace_sufficient c o : 0 <= cpb c -> coin (o_val o) = 0 -> min_lovelace c o < 4294967296 ->
+  ledger_accepts (cpb c) (with_coin o (min_lovelace c o)) = true.
+Proof.
+  intros Hc H0 Hr. unfold ledger_accepts. apply Z.leb_le.
+  pose proof (min_lovelace_nonneg c o Hc) as Hn.
+  assert (E : min_lovelace c o = (160 + Z.of_N (Kout o + Wd 1000000 + msz (massets (o_val o)))) * cpb c).
+  { unfold min_lovelace. rewrite out_size_split. unfold Kout. cbn [o_addr o_val o_datum o_script].
+    unfold subst_coin. rewrite H0. change (0 =? 0) with true. cbv iota. rewrite vsize_split. f_equal. lia. }
+  set (r := min_lovelace c o) in *.
+  unfold min_ada. rewrite out_size_split. unfold with_coin at 2. cbn [o_val coin].
+  rewrite vsize_split.
+  assert (K : Kout (with_coin o r) = Kout o) by reflexivity. rewrite K.
+  pose proof (Wd_small r (conj Hn Hr)). rewrite Wd_1e6 in E.
+  change (coin (o_val (with_coin o r))) with r. clearbody r.
+  etransitivity; [|apply Z.eq_le_incl; symmetry; exact E].
+  rewrite (Z.mul_comm (cpb c)). apply Z.mul_le_mono_nonneg_r; lia.
+Qed.
+
+Example min_lovelace_sufficient_nonvacuous :
+  exists c o, 0 <= cpb c /\ coin (o_val o) = 0 /\ massets (o_val o) <> [] /\ min_lovelace c o < 4294967296.
+Proof.
+  exists (mkCfg 4310 5000), (plain x_addr_b (mkValue 0 [(x_p1, [(x_n0, 1)])])).
+  split; [cbn; lia|]. split; [reflexivity|]. split; [discriminate|]. vm_compute. reflexivity.
+Qed.
+
+(* the 5-byte premise is needed: with a per-byte price for which the answer needs 9 bytes the output built from the
+   answer is 4 bytes longer than the one that was sized (outside every realistic parameter set) *)
+Lemma min_lovelace_sufficient_needs_premise :
+  exists c o, 0 <= cpb c /\ coin (o_val o) = 0 /\ 4294967296 <= min_lovelace c o
+              /\ ledger_accepts (cpb c) (with_coin o (min_lovelace c o)) = false.
+Proof.
+  exists (mkCfg 20000000 5000), (plain x_addr_b (mkValue 0 [])).
+  split; [cbn; lia|]. split; [reflexivity|]. split; vm_compute; [discriminate | reflexivity].
+Qed.
+
+(* legacy protocol parameters do not enter: two parameter records that agree on coins_per_utxo_byte give the same
+   minimum ADA, and records that agree on coins_per_utxo_byte and max_val_size the same change outputs / refusals *)
+Theorem min_lovelace_params p q o : pp_cpb p = pp_cpb q -> min_lovelace_pp p o = min_lovelace_pp q o.
+Proof. intros H. unfold min_lovelace_pp, min_lovelace, cfg_of. cbn [cpb]. now rewrite H. Qed.
+
+Theorem change_params p q : pp_cpb p = pp_cpb q -> pp_mvs p = pp_mvs q ->
+  cfg_of p = cfg_of q
+  /\ (forall i, calc_change (cfg_of p) i = calc_change (cfg_of q) i)
+  /\ (forall a, add_change (cfg_of p) a = add_change (cfg_of q) a)
+  /\ (forall addr ch, pack_tokens (cfg_of p) addr ch = pack_tokens (cfg_of q) addr ch).
+Proof. intros H1 H2. assert (E : cfg_of p = cfg_of q) by (unfold cfg_of; now rewrite H1, H2). rewrite E. repeat split. Qed.
+
+Example params_nonvacuous :
+  exists p q, pp_cpb p = pp_cpb q /\ pp_mvs p = pp_mvs q /\ pp_min_utxo p <> pp_min_utxo q /\ pp_cpw p <> pp_cpw q.
+Proof. exists (mkPP 4310 5000 (Some 1000000) (Some 34482)), (mkPP 4310 5000 (Some 4310) None). repeat split; discriminate. Qed.
